@@ -106,16 +106,7 @@ theorem chainFind_drop (key k' : Bytes) : ∀ c : List Entry, (c.map Prod.fst).N
 
 /-! table level -/
 
-def hashIdx (n : Nat) (key : Bytes) : Nat := (hashLoop key 0 0).toNat % n
-
 theorem hashKey_eq (t : HashTab) (k : Bytes) : t.hashKey k = hashIdx t.buckets.length k := rfl
-
-/-- invariant of every table built by `hash_new` / `hash_add` / `hash_drop` -/
-structure WF (t : HashTab) : Prop where
-  pos : 0 < t.buckets.length
-  nodup : ∀ i (h : i < t.buckets.length), (t.buckets[i].map Prod.fst).Nodup
-  home : ∀ i (h : i < t.buckets.length), ∀ e ∈ t.buckets[i], hashIdx t.buckets.length e.1 = i
-  count : t.numKeys = t.toList.length
 
 theorem hashKey_lt {t : HashTab} (h : WF t) (k : Bytes) : t.hashKey k < t.buckets.length :=
   Nat.mod_lt _ h.pos
